@@ -15,7 +15,7 @@ import time
 VERIF = os.path.dirname(os.path.dirname(os.path.abspath(__file__)))
 REPO = "/repo"
 RELATED = {"C01": ["C01", "C02"], "C02": ["C02", "C01"], "C04": ["C04"], "C09": ["C09"], "C15": ["C15", "C02", "C04"],
-           "C16": ["C16"], "C08": ["C08"], "C20": ["C20", "C08"], "C12": ["C12"], "C10": ["C10"], "C14": ["C14", "C09", "C06"],
+           "C16": ["C16"], "C08": ["C08"], "C20": ["C20", "C08"], "C12": ["C12"], "C10": ["C10"], "C14": ["C14", "C09", "C10"],
            "C05": ["C05"], "C06": ["C06", "C04"], "C19": ["C19"], "C03": ["C03"]}
 
 
@@ -62,7 +62,12 @@ def process(src, only, nproc):
             t = time.time()
             e = dict(os.environ, VERIF_REPO=wt, VERIF_NPROC=str(nproc), VERIF_REPLAY_DIR=f"{wt}/.verif_replays",
                      VERIF_EVIDENCE_DIR=f"{wt}/.verif_evidence")
-            p = subprocess.run(["sh", os.path.join(VERIF, "run.sh"), pid, "quick"], capture_output=True, text=True, env=e)
+            try:
+                p = subprocess.run(["sh", os.path.join(VERIF, "run.sh"), pid, "quick"], capture_output=True, text=True,
+                                   env=e, timeout=1200)
+            except subprocess.TimeoutExpired as ex:
+                subprocess.run("pkill -9 -f 'verif.check %s --tier quick' || true" % pid, shell=True)
+                p = subprocess.CompletedProcess([], 124, stdout=(ex.stdout or b"").decode() if isinstance(ex.stdout, bytes) else (ex.stdout or ""), stderr="timeout")
             nv = len([l for l in p.stdout.splitlines() if l.startswith("VIOLATION")])
             first = next((l for l in p.stdout.splitlines() if l.strip().startswith("what:")), "")
             status = "CAUGHT" if p.returncode == 1 and nv else ("INCONCLUSIVE" if p.returncode == 2 else "MISSED")
